@@ -63,3 +63,142 @@ def record_worker(seed_, n_schemas, n_values, extra):
     finally:
         shutil.rmtree(work, ignore_errors=True)
     return out
+
+
+# ---------------------------------------------------------------------------
+# decode recording: random schemas x (canonical images and arbitrary mutations)
+# ---------------------------------------------------------------------------
+class _Timeout(Exception):
+    pass
+
+
+def _alarm(signum, frame):
+    raise _Timeout()
+
+
+def mutations(rnd, img, n_mut):
+    """Arbitrary inputs derived from a canonical image: truncations, byte and
+    word substitutions, extensions, and unrelated random strings."""
+    out = [("canon", img)]
+    n = len(img)
+    for _ in range(n_mut):
+        r = rnd.random()
+        b = bytearray(img)
+        if r < 0.25 and n:
+            out.append(("trunc", bytes(b[:rnd.randrange(n)])))
+        elif r < 0.55 and n:
+            p = rnd.randrange(n)
+            b[p] = rnd.choice([0, 1, 2, 3, 127, 128, 255, rnd.randrange(256)])
+            out.append(("byte", bytes(b)))
+        elif r < 0.75 and n >= 4:
+            p = 4 * rnd.randrange(n // 4)
+            v = rnd.choice([0, 1, 2, 3, 5, 255, 256, 65535, 65536, 0x7fffffff, 0xffffffff])
+            b[p:p + 4] = v.to_bytes(4, rnd.choice(["little", "big"]))
+            out.append(("word", bytes(b)))
+        elif r < 0.85:
+            out.append(("ext", bytes(b) + bytes(rnd.randrange(256) for _ in range(rnd.randint(1, 5)))))
+        elif r < 0.93 and n >= 2:
+            p = rnd.randrange(n - 1)
+            q = rnd.randrange(p + 1, n)
+            out.append(("cut", bytes(b[:p] + b[q:])))
+        else:
+            out.append(("random", bytes(rnd.choice([0, 0, 1, 2, 255, rnd.randrange(256)])
+                                        for _ in range(rnd.randint(0, n + 4)))))
+    return out
+
+
+def decode_worker(seed_, n_schemas, n_values, n_mut, extra):
+    """Decode canonical and mutated inputs with the real Python codec and
+    record what happened.  Returns {"records": [...], "fails": [...]}; a
+    record: {env, names, schema, inp, ord, kind, outcome, exc, walk, reenc,
+    fix (fixpoint problem text or None), peak}."""
+    import signal
+    import tracemalloc
+    import prophy
+    rnd = random.Random(seed_)
+    out = {"records": [], "fails": [], "n_schemas": 0}
+    work = tempfile.mkdtemp(prefix="vfdr-", dir=extra.get("scratch"))
+    signal.signal(signal.SIGALRM, _alarm)
+    tracemalloc.start()
+    try:
+        for si in range(n_schemas):
+            defs = gen.gen_env(rnd)
+            names = ["D%d_%d_T%d" % (seed_, si, i + 1) for i in range(len(defs))]
+            env = S.Env(defs, names=names)
+            sub = os.path.join(work, "s%d" % si)
+            os.mkdir(sub)
+            try:
+                mod, _ = P.compile_python(env.render(), sub, "t")
+            except P.CompileFailure as e:
+                out["fails"].append({"check": "accept", "what": "schema not realised by prophyc/python: %s" % e,
+                                     "schema": env.render(), "defs": env.defs})
+                continue
+            out["n_schemas"] += 1
+            root = len(env.defs)
+            t = S.Ref(root)
+            for _ in range(n_values):
+                value = gen.gen_value(rnd, env, t)
+                try:
+                    msg = P.new_message(env, mod, root)
+                    P.fill(env, msg, t, value)
+                    images = {"L": msg.encode("<"), "B": msg.encode(">")}
+                except Exception:
+                    continue        # the encode-side trace leg reports this
+                for o in ("L", "B"):
+                    for kind, data in mutations(rnd, images[o], n_mut):
+                        out["records"].append(_decode_one(env, mod, root, t, data, o, kind, prophy, signal, tracemalloc))
+                # the other byte order's image, read with this one
+                out["records"].append(_decode_one(env, mod, root, t, images["B"], "L", "cross", prophy, signal, tracemalloc))
+    finally:
+        tracemalloc.stop()
+        shutil.rmtree(work, ignore_errors=True)
+    return out
+
+
+def _decode_one(env, mod, root, t, data, o, kind, prophy, signal, tracemalloc):
+    order = "<" if o == "L" else ">"
+    rec = {"env": env.defs, "names": env.names, "inp": list(data), "ord": o, "kind": kind,
+           "outcome": None, "exc": "", "walk": None, "reenc": None, "fix": None, "consumed": None}
+    fresh = P.new_message(env, mod, root)
+    tracemalloc.reset_peak()
+    base = tracemalloc.get_traced_memory()[0]
+    signal.alarm(5)
+    try:
+        try:
+            rec["consumed"] = fresh.decode(data, order)
+            rec["outcome"] = "return"
+        except prophy.ProphyError as e:
+            rec["outcome"] = "ProphyError"
+            rec["exc"] = str(e)[:200]
+        except _Timeout:
+            rec["outcome"] = "timeout"
+        except BaseException as e:  # noqa
+            rec["outcome"] = "other"
+            rec["exc"] = P.exc_text(e)
+    finally:
+        signal.alarm(0)
+    rec["peak"] = tracemalloc.get_traced_memory()[1] - base
+    if rec["outcome"] != "return":
+        return rec
+    try:
+        enc = fresh.encode(order)
+    except Exception as e:
+        rec["fix"] = "the decoded message does not encode: %s" % P.exc_text(e)
+        return rec
+    rec["reenc"] = list(enc)
+    try:
+        v1 = P.extract(env, fresh, t)
+        rec["walk"] = S.value_to_walk(env, t, v1)
+    except Exception as e:
+        rec["fix"] = "the decoded message cannot be read back through the API: %s" % P.exc_text(e)
+        return rec
+    again = P.new_message(env, mod, root)
+    try:
+        again.decode(enc, order)
+        v2 = P.extract(env, again, t)
+        enc2 = again.encode(order)
+        if v1 != v2 or enc != enc2:
+            rec["fix"] = "not a fixpoint: %s -> %s, %r -> %r" % (enc.hex(), enc2.hex(), v1, v2)
+    except Exception as e:
+        rec["fix"] = "decoding its re-encoding %s failed: %s" % (enc.hex(), P.exc_text(e))
+    return rec
